@@ -44,14 +44,27 @@ def op_snapshot(op):
     return {k: (v, list(v) if isinstance(v, list) else None) for k, v in vars(op).items()}
 
 
+def _same_value(a, b):
+    if a is b:
+        return True
+    try:
+        r = (a == b)
+        return bool(r) if not hasattr(r, "all") else bool(r.all())
+    except Exception:
+        return False
+
+
 def op_unchanged(op, snap):
+    """the observable content of the operation is what it was: same attributes, list-valued ones hold the SAME parameter
+    objects element by element (a re-created but equal container is not a change), other values equal"""
     cur = vars(op)
     if set(cur) != set(snap):
         return False
     for k, (v, items) in snap.items():
-        if cur[k] is not v:
-            return False
-        if items is not None and (len(v) != len(items) or any(a is not b for a, b in zip(v, items))):
+        if items is not None:
+            if not isinstance(cur[k], list) or len(cur[k]) != len(items) or any(a is not b for a, b in zip(cur[k], items)):
+                return False
+        elif not _same_value(cur[k], v):
             return False
     return True
 
